@@ -53,6 +53,15 @@ class ModelChooser(object):
                     self.violations.append('producer %s waits for the lock, which the flusher holds while it is inside the '
                                            'wrapped storage' % n)
         names = dict((n, h) for n, h in enabled if h == 'run')
+        # a guest that was given the baton at a line-anchor preemption keeps it for a few scheduling decisions (a request
+        # consists of several boundary calls: lock, append, unlock, possibly more) while the preempted participant waits
+        hold = getattr(self, 'hold', None)
+        if hold is not None:
+            guest, left = hold
+            self.hold = (guest, left - 1) if left > 1 else None
+            if guest in names:
+                return (guest, 'run')
+            self.hold = None
         # a participant just preempted at a line anchor lets somebody else run first
         for n in list(names):
             p = sched.parts[n]
@@ -62,7 +71,11 @@ class ModelChooser(object):
                 others = sorted(k for k in names if k != n)
                 if others:
                     self.target = None
-                    return (others[len(sched.preemptions) % len(others)], 'run')
+                    guest = others[len(sched.preemptions) % len(others)]
+                    self.hold = (guest, (len(sched.preemptions) * 7 + self.i) % 5)   # 0-4 further decisions
+                    if self.hold[1] == 0:
+                        self.hold = None
+                    return (guest, 'run')
         # only the flush-interval timer may fire: the join time-out of close() is assumed not to expire
         touts = dict((n, h) for n, h in enabled if h == 'timeout' and n == 'fl')
         if self.target is None and self.i < len(self.moves):
